@@ -76,9 +76,12 @@ enum Route {
     QuasiDottedTail,
     /// constant element of a quasiquote template inside a procedure defined earlier
     QuasiElement,
+    /// delivered by a continuation invoked in a non-tail position
+    ViaContinuationLiteral,
+    ViaContinuationComputed,
 }
 
-const ROUTES: [Route; 12] = [
+const ROUTES: [Route; 14] = [
     Route::Literal,
     Route::QuotedListElement,
     Route::QuotedVectorElement,
@@ -91,6 +94,8 @@ const ROUTES: [Route; 12] = [
     Route::StringAppend,
     Route::QuasiDottedTail,
     Route::QuasiElement,
+    Route::ViaContinuationLiteral,
+    Route::ViaContinuationComputed,
 ];
 
 fn needs_literal(r: Route) -> bool {
@@ -104,6 +109,7 @@ fn needs_literal(r: Route) -> bool {
             | Route::CarOfList
             | Route::QuasiDottedTail
             | Route::QuasiElement
+            | Route::ViaContinuationLiteral
     )
 }
 
@@ -123,6 +129,11 @@ fn produce(route: Route, name: &str, uniq: usize, aux: &mut Vec<String>) -> Stri
         Route::EvalConstructed => format!("(eval (list 'quote (string->symbol {})))", strlit(name)),
         Route::CarOfList => format!("(car (list '{} 1))", name),
         Route::ViaSymbolString => format!("(string->symbol (symbol->string (string->symbol {})))", strlit(name)),
+        Route::ViaContinuationLiteral => format!("(call/cc (lambda (k) (list 'unreached (k '{}))))", name),
+        Route::ViaContinuationComputed => format!(
+            "(car (list (call/cc (lambda (k) (vector (k (string->symbol {})) 'unreached)))))",
+            strlit(name)
+        ),
         Route::QuasiDottedTail => {
             aux.push(format!("(define (tagger{} x) `(,x . {}))", uniq, name));
             format!("(cdr (tagger{} 1))", uniq)
